@@ -38,3 +38,10 @@ package iteru
 //@     invariant catOf(out_, seqs, idx_, 0)
 //@   loop 1:
 //@     invariant catOf(out_, seqs, idx0_, idx_)
+
+//@ func Times
+//@   property C16
+//@   modifies nothing
+//@   ensures seqlen(result) == ite(n > 0, n, 0) && forall(0, n, func(j int) bool { return seqat(result, j) == j })
+//@   loop 0:
+//@     invariant len(out_) == idx_ && forall(0, idx_, func(j int) bool { return out_[j] == j })
